@@ -101,8 +101,11 @@ pub fn d4_async_arc_recency() -> Option<Violation> {
         let _ = c.get("b");
         c.insert("c", "3".into());
         let k = s.keys();
-        if k != vec!["b".to_string(), "c".to_string()] {
-            return v("C08:async:recency-rank", "equally popular entries: the least recently used one (a) is evicted, {b, c} remain", format!("{:?} under {:?}", k, p));
+        // residents compete: a (least recently used of two equally popular entries) goes;
+        // newcomer competes (store-then-evict): the never-hit c goes.  Never b.
+        let ok = k == vec!["b".to_string(), "c".to_string()] || k == vec!["a".to_string(), "b".to_string()];
+        if !ok {
+            return v("C08:async:recency-rank", "equally popular entries: the least recently used one (a) is evicted - or the never-hit newcomer c if it competes - but never b", format!("{:?} under {:?}", k, p));
         }
     }
     None
